@@ -370,17 +370,37 @@ class QueryPlanner:
         # split to select from api database
         #     keep only limit and where
         #     the rest goes to outer select
+        # the rows can be limited in the api only if the limit counts the rows that are fetched:
+        #   not groups, not distinct rows, not rows after an offset, not the row of an aggregate
+        functions = []
+
+        def find_functions(node, **kwargs):
+            if isinstance(node, (Function, ast.WindowFunction)):
+                functions.append(node)
+        query_traversal(list(query.targets), find_functions)
+
+        limit = query.limit
+        if (
+                query.group_by is not None
+                or query.having is not None
+                or query.distinct
+                or query.offset is not None
+                or len(functions) > 0
+        ):
+            limit = None
+
         query2 = Select(
             targets=query.targets,
             from_table=query.from_table,
             where=query.where,
             order_by=query.order_by,
-            limit=query.limit,
+            limit=limit,
         )
         prev_step = self.plan_integration_select(query2)
 
         # clear limit and where
-        query.limit = None
+        if limit is not None:
+            query.limit = None
         query.where = None
         return self.plan_sub_select(query, prev_step)
 
